@@ -15,11 +15,21 @@ from nmverif.oracle import cst
 CLASS_GROUP = {
     "min": "min", "tight": "tight", "sp": "space", "sp2": "spaces", "tab": "tab",
     "nl": "newline", "nl_ind": "newline", "crlf": "crlf", "trail_ws": "trailing-ws",
-    "blank": "blank", "blank2": "blank2",
+    "blank": "blank", "blank2": "blank2", "crlf_blank": "crlf",
+    "eol_c_blank": "line-eol", "own_c_blank": "line-own",
+    "eol_c_crlf": "line-eol", "eol_c_crlf_blank": "line-eol", "blk_edge": "block-inline",
     "eol_c": "line-eol", "nosp_c": "line-eol", "own_c": "line-own", "own_c_ind": "line-own",
     "blank_own_c": "line-own", "two_c": "line-own", "uni_c": "line-own", "shebang_c": "line-own",
     "inl_blk": "block-inline", "inl_blk_tight": "block-inline", "lead_blk": "block-inline",
     "eol_blk": "block-eol", "own_blk": "block-own", "doc": "block-own", "ml_blk": "block-ml",
+}
+
+
+# finer description of a class inside its group (a KF pattern that does not mention
+# `variant` covers every variant of the group)
+CLASS_VARIANT = {
+    "crlf_blank": "crlf-blank-line", "eol_c_blank": "blank-line-after", "own_c_blank": "blank-line-after",
+    "eol_c_crlf": "crlf", "eol_c_crlf_blank": "crlf-blank-line-after", "blk_edge": "wording-ends-in-closer-chars",
 }
 
 
@@ -148,6 +158,8 @@ def describe_gaps(case: Case, keep: set, text: str) -> list[dict]:
         d = _locate_gap(text, rd, pre, len(b) - suf)
         cls = case.gaps[0][1] if case.gaps else "?"
         d["cls"] = CLASS_GROUP.get(cls, cls)
+        if cls in CLASS_VARIANT:
+            d["variant"] = CLASS_VARIANT[cls]
         if d["prev"] == "":
             d["lead_ws"] = "yes" if text[:1] in (" ", "\t", "\r", "\n") else "no"
         return [d]
@@ -158,6 +170,8 @@ def describe_gaps(case: Case, keep: set, text: str) -> list[dict]:
         s, e = offs[gid]
         d = _locate_gap(text, rd, s, e)
         d["cls"] = CLASS_GROUP.get(cls_of.get(gid, "?"), cls_of.get(gid, "?"))
+        if cls_of.get(gid) in CLASS_VARIANT:
+            d["variant"] = CLASS_VARIANT[cls_of[gid]]
         if gid == -1:
             d["lead_ws"] = "yes" if text[:1] in (" ", "\t", "\r", "\n") else "no"
         out.append(d)
